@@ -17,7 +17,7 @@ import journal as J
 import c11 as RX
 
 IMPORTS = ("From TkModel Require Import Base Dec Acct Txn Journal Round Price Time Regex T06_run T07_run.\n"
-           "From TkModel Require Filter MetaText.\n"
+           "From TkModel Require Filter MetaText Store.\n"
            "From TkCorr Require Import T06_corr T07_corr.\n")
 
 HASHES = {"SHA-256": "sha256", "SHA-512": "sha512", "SHA-512/256": "sha512_256", "SHA3-256": "sha3_256", "SHA3-512": "sha3_512"}
@@ -295,7 +295,7 @@ BREAKS = ["no-final-newline", "bad-posting", "unbalanced", "lone-cr", "dup-uuid"
 
 
 PROFILES = ["md", "eqconv"]
-T07_PROFILES = ["dir", "strict", "regex", "dir+strict", "dir+regex", "strict+regex"]
+T07_PROFILES = ["dir", "strict", "regex", "dir+strict", "dir+regex", "strict+regex", "git", "git+strict+regex"]
 ANY = ("Star", ("Any",))
 
 
@@ -358,6 +358,12 @@ def apply_t07(r, w, profile, accounts):
     t7 = {"files": None, "ext": r.choice(["txn", "txn", "txn", "journal", "t"]), "strict": False, "charts": None, "pats": None,
           "cli_input": r.random() < 0.4}
     parts = profile.split("+")
+    if "git" in parts:
+        t7["split"] = True
+        t7["git"] = {"dir": r.choice(["txns", "txns", "journal/2024", ""]), "sel": None, "commits": None}
+        t7["cli_input"] = False
+        if w["break"] in ("empty-journal",):
+            w["break"] = None
     if "dir" in parts:
         t7["split"] = True
         if w["break"] is None and r.random() < 0.15:
@@ -373,6 +379,10 @@ def apply_t07(r, w, profile, accounts):
     for k in ("accounts", "bal", "grp", "reg", "eq"):
         w[k] = None
     if "strict" in parts:
+        if r.random() < 0.5:
+            w["txns"][r.randrange(len(w["txns"]))]["tags"] = r.sample(["t1", "a:b", "x-y"], r.randint(1, 2))
+        if w["mode"] == "files" and "equity" not in w["exports"] and r.random() < 0.4:
+            w["exports"] = w["exports"] + ["equity"]
         accs, comms, tags = used_names(w)
         if "equity" in w["exports"] or r.random() < 0.3:
             accs = sorted(set(accs + [w["eqa"]]))
@@ -385,8 +395,10 @@ def apply_t07(r, w, profile, accounts):
             ch["tags"] = tags + ["unused"]
         elif k < 0.40:
             # one needed name is missing: strict mode must refuse, strict off must not care
-            kind = r.choice([x for x, l in (("accounts", ch["accounts"]), ("comms", ch["comms"]), ("tags", ch["tags"])) if l] or ["accounts"])
-            if ch[kind]:
+            kind = r.choice([x for x, l in (("accounts", ch["accounts"]), ("comms", ch["comms"]), ("tags", ch["tags"]), ("tags", ch["tags"])) if l] or ["accounts"])
+            if kind == "accounts" and "equity" in w["exports"] and r.random() < 0.5:
+                ch["accounts"] = [x for x in ch["accounts"] if x != w["eqa"]]      # the equity account of an equity export must be declared
+            elif ch[kind]:
                 gone = r.choice(ch[kind])
                 ch[kind] = [x for x in ch[kind] if x != gone]
                 if kind == "accounts" and r.random() < 0.5 and ":" not in gone:
@@ -559,6 +571,22 @@ def finish_world(r, w):
         r.shuffle(files)
         t7["files"] = files
         t7.pop("split", None)
+        if t7.get("git") is not None:
+            g = t7["git"]
+            pre = (g["dir"] + "/") if g["dir"] else ""
+            top = g["dir"].split("/")[0] if g["dir"] else "txns"
+            # files of the commit outside the journal directory (same suffix), names that only share a prefix with it
+            outside = [] if not g["dir"] else [[nm, "2024-01-01 'outside\n a  1\n e  -1\n", False]
+                                               for nm in r.sample(["other/o.%s" % ext, "%sfile.%s" % (top, ext), "%s-old/b.%s" % (top, ext), "o.%s" % ext], r.randint(1, 3))]
+            all_files = [[pre + nm, text, r.random() < 0.2] for nm, text in files] + outside + [["README.md", "# readme\n", False]]
+            journal_files = [f for f in files if py_has_ext(ext, f[0].split("/")[-1])]
+            first = [[pre + nm, text, False] for nm, text in journal_files[:1]] + outside[:1] + [["README.md", "# old\n", False]]
+            g["commits"] = [{"message": r.choice(["first\n", "subject one\n\nbody\n", "  padded  \n"]), "files": first},
+                            {"message": r.choice(["second\n", "two\nlines\n", "€uro ☃\n", "second commit with a longer subject line\n"]), "files": all_files}]
+            k = r.random()
+            g["sel"] = (["ref", r.choice(["main", "main", "HEAD", "v1", "old", "rel"])] if k < 0.5 else
+                        ["commit", {"index": r.choice([0, 1, 1]), "len": r.choice([40, 40, 10])}] if k < 0.85 else
+                        ["ref-sha", {"index": r.choice([0, 1]), "len": r.choice([40, 12])}])
     w["uuids"] = [t["uuid"].lower() if t["uuid"] else None for t in txns]
     del w["txns"]
     return w
@@ -638,7 +666,7 @@ def hash_table(w):
         return "(@nil (list N * list N))"
     pre = set()
     us = [u for u in w["uuids"] if u]
-    cand = subsets(us) if (w["filter"] is not None and len(us) <= 6) else [us]
+    cand = subsets(us) if ((w["filter"] is not None or (w.get("t07") or {}).get("git") is not None) and len(us) <= 6) else [us]
     for s in cand:
         pre.add("".join(u + "\n" for u in sorted(s)))
     for key in ("bal", "grp", "reg", "eq"):
@@ -690,9 +718,113 @@ def g_input_files(w):
 
 def world_args(w):
     ptext = "(Some %s)" % g_str(w["prices"]) if (w["prices"] is not None and w["price_section"]) else "None"
+    if w.get("t07") and w["t07"].get("git") is not None:
+        gw, gs = git_terms(w)
+        return "%s %s %s %s %s" % (run7_term(w), gw, gs, hash_table(w), ptext)
     if w.get("t07"):
         return "%s %s %s %s" % (run7_term(w), hash_table(w), g_input_files(w), ptext)
     return "%s %s %s %s" % (cfg_term(w), hash_table(w), g_str(w["journal"]), ptext)
+
+
+# ---------------------------------------------------------------- Git storage worlds
+GENV = dict(os.environ, GIT_AUTHOR_NAME="v", GIT_AUTHOR_EMAIL="v@v", GIT_COMMITTER_NAME="v", GIT_COMMITTER_EMAIL="v@v",
+            GIT_AUTHOR_DATE="2024-05-01T00:00:00Z", GIT_COMMITTER_DATE="2024-05-01T00:00:00Z", GIT_CONFIG_GLOBAL="/dev/null", GIT_CONFIG_NOSYSTEM="1")
+
+
+def git(args, cwd, inp=None):
+    import subprocess
+    p = subprocess.run(["git"] + args, cwd=cwd, env=GENV, capture_output=True, input=inp)
+    if p.returncode != 0:
+        raise Infra("git %s failed: %s" % (args, p.stderr.decode("utf-8", "replace")))
+    return p.stdout.decode("utf-8", "replace")
+
+
+def build_git(w, d):
+    """the repository of a Git world, made with the git command line; records what git says: commit ids, trees (mode, blob id, path),
+    stored messages and their titles (gix message().title, transcribed in gen/t04_text.py)"""
+    from t04_text import gix_title
+    g = w["t07"]["git"]
+    repo = os.path.join(d, "repo")
+    os.makedirs(repo)
+    git(["init", "-q", "-b", "main", "."], repo)
+    shas, trees, titles = [], [], []
+    for i, cm in enumerate(g["commits"]):
+        for f in os.listdir(repo):
+            if f != ".git":
+                fp = os.path.join(repo, f)
+                shutil.rmtree(fp) if os.path.isdir(fp) else os.remove(fp)
+        for path, text, ex in cm["files"]:
+            fp = os.path.join(repo, *path.split("/"))
+            os.makedirs(os.path.dirname(fp), exist_ok=True)
+            if ex == "link":
+                os.symlink(text, fp)
+                continue
+            open(fp, "w", encoding="utf-8", newline="").write(text)
+            if ex:
+                os.chmod(fp, 0o755)
+        git(["add", "-A"], repo)
+        git(["commit", "-q", "--cleanup=verbatim", "--allow-empty-message", "--allow-empty", "-F", "-"], repo, inp=cm["message"].encode("utf-8"))
+        sha = git(["rev-parse", "HEAD"], repo).strip()
+        if i == 0:
+            git(["branch", "old", sha], repo)
+            git(["tag", "v1", sha], repo)
+            git(["tag", "-a", "rel", "-m", "annotated", sha], repo)
+        shas.append(sha)
+        tree = []
+        for l in git(["ls-tree", "-r", "-z", sha], repo).split("\0"):
+            if l:
+                meta, path = l.split("\t", 1)
+                mode, typ, oid = meta.split()
+                tree.append([mode, oid, path])
+        trees.append(tree)
+        titles.append(gix_title(cm["message"].encode("utf-8")).decode("utf-8", "replace"))
+    g["built"] = {"shas": shas, "trees": trees, "titles": titles}
+    return repo
+
+
+def git_selected(w):
+    """(index of the selected commit, option name, option value) of a built Git world"""
+    g = w["t07"]["git"]
+    shas = g["built"]["shas"]
+    kind, val = g["sel"]
+    if kind == "ref":
+        return (len(shas) - 1 if val in ("main", "HEAD") else 0), "--input.git.ref", val
+    i = val["index"] if val["index"] < len(shas) else len(shas) - 1
+    return i, ("--input.git.commit" if kind == "commit" else "--input.git.ref"), shas[i][:val["len"]]
+
+
+def git_terms(w):
+    """the Gallina terms git_world and git_sel of a built Git world"""
+    g = w["t07"]["git"]
+    b = g["built"]
+    ext = w["t07"]["ext"]
+    oids, blobs = {}, []
+    commits = []
+    for i, tree in enumerate(b["trees"]):
+        text_of = {p: t for p, t, ex in g["commits"][i]["files"]}
+        ents = []
+        for mode, oid, path in tree:
+            if oid not in oids:
+                oids[oid] = len(oids)
+                if py_has_ext(ext, path.split("/")[-1]) and mode != "120000":
+                    blobs.append("(%s, %s)" % (g_N(oids[oid]), g_str(text_of.get(path, ""))))
+            kd = {"100644": "Store.Blob", "100755": "Store.BlobExec", "120000": "Store.Link"}.get(mode, "Store.Other")
+            ents.append("(Store.mkEntry %s %s %s)" % (g_list([g_str(c) for c in path.split("/")]), kd, g_N(oids[oid])))
+        commits.append("(%s, %s)" % (g_N(i), g_list(ents) if ents else "(@nil Store.entry)"))
+    idx, opt, val = git_selected(w)
+    last = len(b["shas"]) - 1
+    refs = [("main", last), ("HEAD", last), ("v1", 0), ("old", 0), ("rel", 0)]
+    if opt == "--input.git.ref" and val not in [r[0] for r in refs]:
+        refs.append((val, idx))                      # a (prefix of a) commit id given as a reference: resolved by git
+    gw = "(mkGitWorld (Store.mkRepo %s %s) %s %s %s)" % (
+        g_list(commits), g_list(["(%s, %s)" % (g_str(n), g_N(i)) for n, i in refs]),
+        g_list(blobs) if blobs else "(@nil (N * list N))",
+        g_list(["(%s, %s)" % (g_N(i), g_str(s)) for i, s in enumerate(b["shas"])]),
+        g_list(["(%s, %s)" % (g_N(i), g_str(t)) for i, t in enumerate(b["titles"])]))
+    sel = "(Store.ByCommit %s)" % g_N(idx) if opt == "--input.git.commit" else "(Store.ByRef %s)" % g_str(val)
+    dcomps = g_list([g_str(c) for c in g["dir"].split("/")]) if g["dir"] else "(@nil (list N))"
+    gs = "(mkGitSel %s %s %s %s)" % (sel, g_str(val), dcomps, g_str(g["dir"]))
+    return gw, gs
 
 
 # ---------------------------------------------------------------- the binary
@@ -703,7 +835,19 @@ def run_world(w, root):
     if w["prices"] is not None:
         open(os.path.join(d, "prices.db"), "w", encoding="utf-8", newline="").write(w["prices"])
     t7 = w.get("t07")
-    if t7:
+    if t7 and t7.get("git") is not None:
+        build_git(w, d)
+        cf = charts_files(w)
+        if cf:
+            for nm, text in zip(("accounts.toml", "commodities.toml", "tags.toml"), cf):
+                open(os.path.join(d, nm), "w", encoding="utf-8").write(text)
+        idx, opt, val = git_selected(w)
+        toml = toml_of(w).replace('input = { storage = "fs", fs = { dir = "txns", suffix = "%s" } }' % t7["ext"],
+                                  'input = { storage = "git", fs = { dir = "txns", suffix = "txn" }, git = { repo = "repo", ref = "main", dir = "%s", suffix = "%s" } }'
+                                  % (t7["git"]["dir"], t7["ext"]))
+        open(os.path.join(d, "tackler.toml"), "w", encoding="utf-8").write(toml)
+        args = ["--config", "tackler.toml", opt, val]
+    elif t7:
         # directory input: every file below <config dir>/txns; the suffix from the configuration file or from the command line
         for p, text in t7["files"]:
             fp = os.path.join(d, "txns", *p.split("/"))
@@ -750,8 +894,9 @@ def md_block_oracle(w, ref_stdout):
     files = [(n, im["files"].get(n)) for n in names]
     if any(c is None for _, c in files):
         return "a report file announced for the run does not exist: %s" % [n for n, c in files if c is None], {}
-    has_md = w["audit"] or w["filter"] is not None
-    first = "Txn Set Checksum" if w["audit"] else "Filter"
+    is_git = (w.get("t07") or {}).get("git") is not None
+    has_md = w["audit"] or w["filter"] is not None or is_git
+    first = "Git Storage" if is_git else "Txn Set Checksum" if w["audit"] else "Filter"
     us = [u for u in w["uuids"] if u]
     for k, (n, c) in enumerate(files):
         if has_md and not c.startswith(first + "\n"):
@@ -759,11 +904,11 @@ def md_block_oracle(w, ref_stdout):
                     "(expected first line %r: %s)" % (n, ["first", "second", "third"][k], len(files), first,
                                                       "audit mode is on" if w["audit"] else "a filter was applied")), {"file": n, "file_begin": c[:400]}
         if w["audit"]:
-            m = re.match(r"Txn Set Checksum\n *(\S+) : ([0-9a-f]+)\n *Set size : (\d+)\n", c)
+            m = re.search(r"^Txn Set Checksum\n *(\S+) : ([0-9a-f]+)\n *Set size : (\d+)\n", c, re.M)
             if not m:
                 return "file mode: the Txn Set Checksum item of %s does not have the shape <algorithm> : <hex> / Set size : <n>" % n, {"file_begin": c[:400]}
             size = int(m.group(3))
-            cand = [sub for sub in (subsets(us) if w["filter"] is not None else [us]) if len(sub) == size]
+            cand = [sub for sub in (subsets(us) if (w["filter"] is not None or is_git) else [us]) if len(sub) == size]
             hexes = {digest(w["hash"], "".join(u + "\n" for u in sorted(sub)).encode()).hex() for sub in cand}
             if m.group(1) != w["hash"] or m.group(2) not in hexes:
                 return ("file mode: the Txn Set Checksum of %s (%s : %s, size %d) is not the %s digest of the sorted uuids of %s"
@@ -806,9 +951,7 @@ def equity_oracle(run, worlds, st):
         cf = charts_files(w)
         if cf:
             conf.update({"accounts": cf[0], "commodities": cf[1], "tags": cf[2]})
-        inputs = [{"text": w["journal"]}]
-        if w.get("t07"):
-            inputs = [{"name": "f%d.txn" % i, "text": t} for i, (p, t) in enumerate(sorted(w["t07"]["files"])) if py_has_ext(w["t07"]["ext"], p.split("/")[-1])]
+        inputs = [{"text": "\n".join(journal_texts(w))}]          # load: string takes one text: the files separated by an empty line
         rq = {"conf": conf, "overlaps": {}, "inputs": inputs,
               "ops": [{"op": "balance", "kind": "equity", "prices": False, "ras": eff_texts(w, "eq")}]}
         if w["filter"] is not None:
@@ -821,6 +964,7 @@ def equity_oracle(run, worlds, st):
         text = w["impl"]["files"]["%s.equity.txn" % w["prefix"]]
         if not ref or ref.get("stage") != "done" or "ok" not in ref["results"][0]:
             st["equity_reference_failed"] = st.get("equity_reference_failed", 0) + 1
+            st.setdefault("equity_reference_errors", []).append(("%s: %s" % ((ref or {}).get("stage"), (ref or {}).get("err")))[:160])
             continue
         st["equity_reloaded"] = st.get("equity_reloaded", 0) + 1
         conv = w["rc"] is not None and w["lt"] != "none"
@@ -854,6 +998,20 @@ def equity_oracle(run, worlds, st):
                           % ("a converted balance report" if conv and "balance" in w["targets"] else "reports %s" % w["targets"], why), rep)
 
 
+def journal_texts(w):
+    """the texts of the journal files the run reads (independent of the model): the file, the files of the directory with the suffix,
+    the regular files of the selected commit below the configured directory with the suffix"""
+    t7 = w.get("t07")
+    if not t7:
+        return [w["journal"]]
+    if t7.get("git") is not None:
+        g = t7["git"]
+        idx = git_selected(w)[0]
+        pre = (g["dir"].rstrip("/") + "/") if g["dir"] else ""
+        return [t for p, t, ex in sorted(g["commits"][idx]["files"]) if ex != "link" and p.startswith(pre) and py_has_ext(t7["ext"], p.split("/")[-1])]
+    return [t for p, t in sorted(t7["files"]) if py_has_ext(t7["ext"], p.split("/")[-1])]
+
+
 def py_has_ext(ext, name):
     """std::path::Path::extension(name) == ext: the part after the last dot; a leading dot does not count"""
     stem = name[1:] if name.startswith(".") else name
@@ -884,7 +1042,7 @@ def python_oracles(run, worlds, st, root):
 
 def case_term(w):
     im = w["impl"]
-    v = "t07" if w.get("t07") else "t06"
+    v = "t07g" if (w.get("t07") or {}).get("git") is not None else "t07" if w.get("t07") else "t06"
     if w["mode"] == "console":
         return "%s_console_case %s %s %s" % (v, world_args(w), g_bool(im["rc"] == 0), g_str(im["stdout"]))
     fl = g_list(["(%s, %s)" % (g_str(n), g_str(c)) for n, c in im["files"].items()]) if im["files"] else "(@nil (list N * list N))"
@@ -946,7 +1104,10 @@ def check_worlds(run, worlds, st, distinct=None):
             nsel = len([f for f in t7["files"] if py_has_ext(t7["ext"], f[0].split("/")[-1])])
             for key, on in (("several_journal_files", nsel > 1), ("files_not_to_be_read", nsel < len(t7["files"])), ("charts", t7.get("charts") is not None),
                             ("strict", t7["strict"]), ("strict_run_succeeded", t7["strict"] and im["rc"] == 0), ("strict_run_refused", t7["strict"] and im["rc"] != 0),
-                            ("pattern_selectors", t7.get("pats") is not None), ("input_from_command_line", bool(t7.get("cli_input")))):
+                            ("pattern_selectors", t7.get("pats") is not None), ("input_from_command_line", bool(t7.get("cli_input"))),
+                            ("git_storage", t7.get("git") is not None), ("git_run_succeeded", t7.get("git") is not None and im["rc"] == 0),
+                            ("git_by_commit_id", t7.get("git") is not None and t7["git"]["sel"][0] == "commit"),
+                            ("git_older_commit_selected", t7.get("git") is not None and git_selected(w)[0] == 0)):
                 if on:
                     d[key] = d.get(key, 0) + 1
         tk = ",".join(w["targets"]) or "(none)"
@@ -987,7 +1148,8 @@ def check_worlds(run, worlds, st, distinct=None):
             bad.append((w, n >> 4))
     # the model's texts for the differing worlds (second evaluation, only then)
     if bad:
-        mterms = [("%s_%s_model %s" % ("t07" if w.get("t07") else "t06", "console" if w["mode"] == "console" else "files", world_args(w))) for w, _ in bad[:5]]
+        mterms = [("%s_%s_model %s" % ("t07g" if (w.get("t07") or {}).get("git") is not None else "t07" if w.get("t07") else "t06",
+                                       "console" if w["mode"] == "console" else "files", world_args(w))) for w, _ in bad[:5]]
         mvals, merrs = coq_eval("T06-%s-model" % run.prop, IMPORTS, mterms, timeout=900)
         for (w, d), mv in zip(bad[:5], mvals or [None] * 5):
             rep = replay_obj(w)
@@ -1008,16 +1170,17 @@ def check_worlds(run, worlds, st, distinct=None):
 
 
 # ---------------------------------------------------------------- corpus and stage
-def corpus_worlds():
-    d = os.path.join(VERIF, "corpus", "T06")
+def corpus_worlds(which=("T06", "T07")):
     out = []
-    if os.path.isdir(d):
-        for f in sorted(os.listdir(d)):
-            if f.endswith(".json"):
-                for i, w in enumerate(json.load(open(os.path.join(d, f), encoding="utf-8"))["worlds"]):
-                    w = dict(w)
-                    w["src"] = "%s#%d" % (f, i)
-                    out.append(w)
+    for prop in which:
+        d = os.path.join(VERIF, "corpus", prop)
+        if os.path.isdir(d):
+            for f in sorted(os.listdir(d)):
+                if f.endswith(".json"):
+                    for i, w in enumerate(json.load(open(os.path.join(d, f), encoding="utf-8"))["worlds"]):
+                        w = dict(w)
+                        w["src"] = "%s/%s#%d" % (prop, f, i)
+                        out.append(w)
     return out
 
 
@@ -1026,20 +1189,29 @@ def run_stage(run, n=None):
         n = 140 if run.tier == "quick" else 1500
     if run.prop != "T06":
         # run as an extra stage of another check: the theorems of the extension must still build
-        ok, log = coq_make(["props/T06.vo", "corr/T06_corr.vo"])
+        ok, log = coq_make(["props/T06.vo", "props/T07.vo", "corr/T06_corr.vo", "corr/T07_corr.vo"])
         if not ok:
-            run.violation("proof obligation does not check: props/T06.v (whole-run model) failed to build",
-                          {"theorem_file": "coq/props/T06.v", "log": log[-2000:]}, found_input=False)
-            return {"skipped": "props/T06.v does not build"}
+            run.violation("proof obligation does not check: props/T06.v / props/T07.v (whole-run model) failed to build",
+                          {"theorem_file": "coq/props/T06.v, coq/props/T07.v", "log": log[-2000:]}, found_input=False)
+            return {"skipped": "props/T06.v / T07.v do not build"}
     r = run.rng
-    cw = corpus_worlds()
-    worlds = cw if run.prop == "T06" else cw[:4] + [w for w in cw[4:] if w.get("tag")]
+    if run.prop == "T07":
+        # ./check T07: the T07 corpus and T07 profile worlds only
+        worlds = corpus_worlds(("T07",)) + [gen_world(r, 0, T07_PROFILES[i % len(T07_PROFILES)]) for i in range(n)]
+        return finish_stage(run, worlds)
+    cw = corpus_worlds(("T06",))
+    c7 = corpus_worlds(("T07",))
+    worlds = cw + c7 if run.prop == "T06" else cw[:4] + [w for w in cw[4:] if w.get("tag")] + c7[:3]
     # the first four generated worlds and a quarter of the others are profile worlds (files mode: several report files of a set with
     # metadata; equity export after a converted balance report), so that also a small n contains them
-    # ... and the six T07 profiles (directory input, charts / strict mode, pattern selectors and their pairs): the next six generated
-    # worlds and 3/8 of the rest
+    # ... and the eight T07 profiles (directory input, charts / strict mode, pattern selectors, their pairs, Git storage): the next
+    # eight generated worlds and 3/8 of the rest
     forced = [PROFILES[0], PROFILES[1], PROFILES[0], PROFILES[1]] + T07_PROFILES
     worlds += [gen_world(r, 0, forced[i] if i < len(forced) else r.choice([None] * 6 + PROFILES * 2 + T07_PROFILES)) for i in range(n)]
+    return finish_stage(run, worlds)
+
+
+def finish_stage(run, worlds):
     for i, w in enumerate(worlds):
         w["idx"] = i
     st = new_stats()
@@ -1052,6 +1224,6 @@ def run_stage(run, n=None):
                             "report_zone": w["rtz"], "journal": w["journal"][:300], "stdout_begin": w["impl"]["stdout"][:300]}
             break
     run.notes["whole_run_T06"] = {k: v for k, v in st.items() if k != "sample"}
-    if run.prop != "T06":
+    if run.prop not in ("T06", "T07"):
         run.cov["evaluations"] += st["worlds"]
     return st
